@@ -335,3 +335,34 @@ def iterates_all_of(it, what: str) -> bool:
         if isinstance(it.func, ast.Attribute) and it.func.attr == 'copy' and not it.args:
             return dotted(it.func.value) == what
     return False
+
+
+def check_std_timeout_handlers(ck, rid: str, funcs):
+    """Where a try around a timed standard-library wait (`asyncio.wait_for`, `Future.result(timeout)`) has a handler for
+    a timeout, that handler names the class the library raises -- `asyncio.TimeoutError` / `concurrent.futures.TimeoutError`
+    / the builtin -- and not only a name that the module has re-bound to its own subclass (`from mpservice._common import
+    TimeoutError`: `except TimeoutError:` then catches the library's subclass only, the library's timeout escapes)."""
+    n_ob = 0
+    for f in funcs:
+        mod = f.module
+        shadowed = 'TimeoutError' in mod.imports or 'TimeoutError' in mod.classes
+        for tr in [n for n in ast.walk(f.node) if isinstance(n, ast.Try)]:
+            timed = [c for st in tr.body for c in ast.walk(st) if isinstance(c, ast.Call) and ((dotted(c.func) or '').endswith('wait_for') or (method_of(c)[1] in ('result', 'exception') and (c.args or any(k.arg == 'timeout' for k in c.keywords))))]
+            if not timed:
+                continue
+            hs = [h for h in tr.handlers if h.type is not None and 'TimeoutError' in norm_text(h.type)]
+            if not hs:
+                continue
+            ok = False
+            for h in hs:
+                for t in (h.type.elts if isinstance(h.type, ast.Tuple) else [h.type]):
+                    d = dotted(t) or ''
+                    if d in ('asyncio.TimeoutError', 'builtins.TimeoutError', 'concurrent.futures.TimeoutError', 'futures.TimeoutError', 'asyncio.exceptions.TimeoutError'):
+                        ok = True
+                    if d == 'TimeoutError' and not shadowed:
+                        ok = True
+                    if d in ('Exception', 'BaseException', 'OSError'):
+                        ok = True
+            n_ob += 1
+            ck.ob(rid, f, hs[0], ok, f'the timeout of `{norm_text(timed[0])[:50]}` is caught by the class the library raises' if ok else f'`except {norm_text(hs[0].type)}` names only `TimeoutError`, which this module has re-bound to mpservice\'s own subclass: the builtin TimeoutError raised by `{norm_text(timed[0])[:40]}` is not caught — the caller gets a bare TimeoutError instead of the documented error (ServerBacklogFull / the "… seconds total" message)')
+    return n_ob
